@@ -10,8 +10,10 @@ package actionlint
 // names, input type, permissions values, secrets: inherit) it is an expression syntax error.
 
 import (
+	"bytes"
 	"fmt"
 	"os"
+	"path/filepath"
 	"strings"
 	"testing"
 )
@@ -37,6 +39,44 @@ type c03Seed struct {
 	// that differ from another seed only inside one mapping)
 	onlyPath string
 	direct   bool // with onlyPath: only the direct scalar children of that container
+	// project seeds: the workflow is linted as a file of a repository that holds a local action and
+	// a local reusable workflow (nil: linted as a single source)
+	lint func(src string) vLintResult
+}
+
+// c03ProjectFiles: the repository of the project seed. The caller passes values to typed and
+// untyped inputs of the local reusable workflow and to inputs of the local action.
+var c03ProjectFiles = map[string]string{
+	".git/HEAD":                    "ref: refs/heads/main\n",
+	"act/action.yml":               "name: act\ndescription: d\ninputs:\n  in1:\n    description: d\n    required: true\n  in2:\n    description: d\n    default: x\noutputs:\n  out1:\n    description: d\n    value: v\nruns:\n  using: composite\n  steps:\n    - run: echo\n      shell: bash\n",
+	".github/workflows/callee.yml": "on:\n  workflow_call:\n    inputs:\n      cstr:\n        type: string\n      cnum:\n        type: number\n      cbool:\n        type: boolean\n      cany:\n        description: no type\n    secrets:\n      csec:\n        required: true\n    outputs:\n      cout:\n        value: v\njobs:\n  j:\n    runs-on: ubuntu-latest\n    steps:\n      - run: echo\n",
+}
+
+const c03ProjectCaller = "on: push\njobs:\n  a:\n    runs-on: ubuntu-latest\n    steps:\n      - uses: ./act\n        id: s\n        with:\n          in1: x\n          in2: y\n      - run: echo ${{ steps.s.outputs.out1 }}\n  b:\n    uses: ./.github/workflows/callee.yml\n    with:\n      cstr: x\n      cnum: 1\n      cbool: true\n      cany: z\n    secrets:\n      csec: x\n  c:\n    needs: b\n    runs-on: ubuntu-latest\n    steps:\n      - run: echo ${{ needs.b.outputs.cout }}\n"
+
+func c03ProjectLint(t *testing.T) func(src string) vLintResult {
+	dir := vTempDir(t, "c03p-")
+	vWriteFiles(t, dir, c03ProjectFiles)
+	path := filepath.Join(dir, ".github/workflows/caller.yml")
+	return func(src string) (res vLintResult) {
+		defer func() {
+			if p := recover(); p != nil {
+				res.Panic = fmt.Sprintf("%v\n%s", p, vStack())
+			}
+		}()
+		if err := os.WriteFile(path, []byte(src), 0o644); err != nil {
+			res.Err = err
+			return
+		}
+		var out bytes.Buffer
+		l, err := NewLinter(&out, &LinterOptions{WorkingDir: dir})
+		if err != nil {
+			res.Err = err
+			return
+		}
+		res.Errs, res.Err = l.LintFile(path, nil)
+		return
+	}
 }
 
 // c03DerivedSeeds produces, for every mapping of a maximal seed, the reductions that keep the
@@ -237,7 +277,11 @@ func c03Check(r *vReport, sd *c03Seed, ps []*vPos, payload int) {
 		spans[k] = span{p.Line, lo, lo + len(text) - 1}
 	}
 	src = strings.Join(lines, "\n")
-	res := vLint(src, nil)
+	lint := func(s string) vLintResult { return vLint(s, nil) }
+	if sd.lint != nil {
+		lint = sd.lint
+	}
+	res := lint(src)
 	r.Evaluations++
 	r.Transitions++
 	r.Validated++
@@ -250,7 +294,7 @@ func c03Check(r *vReport, sd *c03Seed, ps []*vPos, payload int) {
 		sch, _ := vSchemaOf(p.NPath)
 		rspans = append(rspans, []any{spans[k].line, spans[k].lo, spans[k].hi, sch.Exempt, p.NPath})
 	}
-	replay := map[string]any{"seed": sd.name, "paths": names, "payload": payload, "src": src, "spans": rspans}
+	replay := map[string]any{"seed": sd.name, "paths": names, "payload": payload, "src": src, "spans": rspans, "project": sd.lint != nil}
 	if res.Panic != "" || res.Err != nil {
 		r.Violation("failure", fmt.Sprintf("%s %v: panic=%q err=%v", sd.name, names, vTrunc(res.Panic, 300), res.Err), replay)
 		return
@@ -322,19 +366,23 @@ func TestVerifC03(t *testing.T) {
 	if vThorough() {
 		r.Bounds["simultaneous_mutations"] = 2
 	}
-	r.Extra["rule"] = "4 maximal seeds covering every key of the workflow syntax + every clean reduction of a mapping to its mandatory keys plus one pair of optional keys + every mapping rewritten with each key moved to the front and in reversed order (positions inside that mapping); every scalar value position (mapping values and sequence elements at any depth) x 5 malformed placeholders (one of them after a valid placeholder in the same string) spliced as single-quoted scalars; thorough: also every pair of scalar positions inside one mapping mutated together. class = normalised schema path of the position; non-trivial = position where an expression syntax error is required"
+	r.Extra["rule"] = "4 maximal seeds covering every key of the workflow syntax (+ a caller linted inside a repository with a local action and a local reusable workflow) + every clean reduction of a mapping to its mandatory keys plus one pair of optional keys + every mapping rewritten with each key moved to the front and in reversed order (positions inside that mapping); every scalar value position (mapping values and sequence elements at any depth) x 5 malformed placeholders (one of them after a valid placeholder in the same string) spliced as single-quoted scalars; thorough: also every pair of scalar positions inside one mapping mutated together. class = normalised schema path of the position; non-trivial = position where an expression syntax error is required"
 	r.Extra["assumptions"] = []string{"positions are those reachable from the seeds (one occurrence of every key of appendix C); block-style mappings only"}
 
 	if raw := vReplayInput(); raw != nil {
 		var c struct {
-			Src   string  `json:"src"`
-			Spans [][]any `json:"spans"`
+			Src     string  `json:"src"`
+			Spans   [][]any `json:"spans"`
+			Project bool    `json:"project"`
 		}
 		if err := jsonUnmarshal(raw, &c); err != nil {
 			t.Fatal(err)
 		}
 		for k := 0; k < 2; k++ {
 			res := vLint(c.Src, nil)
+			if c.Project {
+				res = c03ProjectLint(t)(c.Src)
+			}
 			fmt.Printf("replay %d:\n%s\ndiagnostics: %v err=%v panic=%s\n", k, c.Src, vDiagStrings(res.Errs), res.Err, vTrunc(res.Panic, 200))
 			for _, sp := range c.Spans {
 				line, lo, hi := int(sp[0].(float64)), int(sp[1].(float64)), int(sp[2].(float64))
@@ -359,6 +407,18 @@ func TestVerifC03(t *testing.T) {
 		return
 	}
 
+	// the project seed: a caller linted inside a repository with a local action and a local reusable
+	// workflow (values given to typed and untyped inputs are placeholders like any other scalar)
+	{
+		pl := c03ProjectLint(t)
+		if res := pl(c03ProjectCaller); res.Err != nil || res.Panic != "" || len(res.Errs) > 0 {
+			r.HarnessError("the project seed does not lint clean: %v %v %s", vDiagStrings(res.Errs), res.Err, vTrunc(res.Panic, 200))
+		} else if cat, err := vBuildCatalogue("project-caller", c03ProjectCaller); err != nil {
+			r.HarnessError("%v", err)
+		} else {
+			seeds = append(seeds, &c03Seed{name: "project-caller", cat: cat, lint: pl})
+		}
+	}
 	var idx int64
 	pathsSeen := map[string]bool{}
 	for _, sd := range seeds {
